@@ -41,6 +41,8 @@ PLAN = {
         level="proof",
         verus=["C08_output_size.rs", "C08_flat_accept.rs", "C02_convolve.rs", "C02_deconv_forward.rs"],
         kani=True,
+        native_checks=[("isqrt.floor", "(size as f32).sqrt() as usize == floor(sqrt(size)) for every size < 2^24: the contract of the opaque "
+                                       "isqrt_f32 assumed by the flat-size units, by exhaustion on the real expression")],
         undecided_clauses=["builder chaining over layer sequences (next inputs = previous outputs, flatten flag): read, not verified",
                            "flat sizes >= 2^24 (the cast to f32 is no longer exact there)"],
     ),
